@@ -1,6 +1,8 @@
 """Contract registry and the contract context `c` handed to sidecar specifications (DESIGN 3.1)."""
 from __future__ import annotations
 
+import os
+
 import ast
 
 import z3
@@ -132,7 +134,14 @@ class Registry:
     # ---------------------------------------------------------------- call-site application
     def apply_contract(self, I, spec, fi, bound):
         c = ContractCtx("call", I, fi, bound)
+        trace = os.environ.get("PYVC_TRACE_SUMMARY")
+        feas0 = I.ctx.feasible() if trace else None
         spec.fn(c)
+        if trace and feas0 and any(w is None for _, w, _ in c._raises) and not I.ctx.feasible():
+            # debugging aid: the summary's call-time assumptions contradict the caller's path although the summary also has
+            # unconditional raise outcomes - those outcomes are lost on this path (see DESIGN 10.7, G7)
+            with open(trace, "a") as f:
+                f.write(f"{spec.label} called from {I.name_of(I.frames[-1].fi) if I.frames else '<top>'}\n")
         caller = I.name_of(I.frames[-1].fi) if I.frames else "<top>"
         k = I.call_ordinal(fi)
         base = f"{caller}/call[{fi.qualname}#{k}]"
